@@ -129,7 +129,8 @@ func (p *Proxy) forwardRpc(source string, rpc *goatorepo.Rpc) {
 	// Sanity check RPC first
 	if rpc.Header == nil || rpc.Header.Source != source {
 		log.Warn().Msgf("Bad Rpc: %v", rpc)
-		log.Panic().Msg("TODO: handle invalid RPC here (log and ignore?)")
+		// log and ignore: a peer must not be able to take the proxy down
+		return
 	}
 
 	// Apply any sort of address translation first: this allows implementing a
